@@ -194,6 +194,8 @@ def _sub(case, st):
              prune_wc=cfg.get("prune_wc", False), prune_auto=cfg.get("prune_auto", False), implicit=cfg.get("implicit", False))
     if st.get("call") in ("mcs_mol", "component"):
         d["mode"] = st["call"]
+    if st.get("call") == "rc_side" and st.get("component"):
+        d["mode"] = "component"
     return d
 
 
@@ -274,6 +276,21 @@ def _run_history(case):
             matchers[ci] = _new_matcher(sub)
         M = matchers[ci]
         gs = []
+        if st.get("call") == "rc_side":
+            # the ITS facade: find_rc_mapping(its1, its2, side=r|l|op); st["g1"], st["g2"] are the sides it must compare
+            its1, its2 = G.to_nx(st["its1"]), G.to_nx(st["its2"])
+            _Count.n = 0
+            if st.get("positional"):
+                r = M.find_rc_mapping(its1, its2, side=st["side"], mcs=st["mcs"], component=st.get("component", False))
+            else:
+                r = M.find_rc_mapping(rc1=its1, rc2=its2, mcs=st["mcs"], component=st.get("component", False), side=st["side"].upper()
+                                      if st.get("upper") else st["side"])
+            assert r is M
+            cnt = _Count.n
+            views = _views(M, variant)
+            ok = _derived_ok(M, variant, st.get("reads", ["G1_to_G2", "G2_to_G1"]))
+            out.append((_obs(M, cnt, variant), ok, views))
+            continue
         for side in ("g1", "g2"):
             src = st.get("src_" + side)
             if src is not None:
@@ -956,6 +973,69 @@ def _degenerate(rng, n):
     return out
 
 
+def _its_pair(rng):
+    """A small ITS-like graph (typesGH node tuples, (order_G, order_H) edge pairs) and its reactant / product sides computed
+    HERE (independently of synkit.Graph.ITS.its_decompose): node attributes element, aromatic, hcount, charge, atom_map."""
+    base = _rand(rng, rng.randint(2, 5), 0.5, connected=rng.random() < 0.7)
+    ids = [n for n, _ in base["nodes"]]
+    its = {"nodes": [], "edges": []}
+    gl = {"nodes": [], "edges": []}
+    gr = {"nodes": [], "edges": []}
+    for n, a in base["nodes"]:
+        cl, cr = a.get("charge", 0), (a.get("charge", 0) if rng.random() < 0.7 else rng.choice([0, 1, -1]))
+        hl, hr = rng.choice([0, 1, 2]), rng.choice([0, 1, 2])
+        its["nodes"].append([n, {"element": a["element"], "charge": cl,
+                                 "typesGH": [[a["element"], False, hl, cl, []], [a["element"], False, hr, cr, []]]}])
+        gl["nodes"].append([n, {"element": a["element"], "aromatic": False, "hcount": hl, "charge": cl, "atom_map": n}])
+        gr["nodes"].append([n, {"element": a["element"], "aromatic": False, "hcount": hr, "charge": cr, "atom_map": n}])
+    pairs = {frozenset((u, v)): a.get("order", 1) for u, v, a in base["edges"]}
+    for x in range(len(ids)):
+        for y in range(x + 1, len(ids)):
+            key = frozenset((ids[x], ids[y]))
+            og = pairs.get(key, 0)
+            z = rng.random()
+            oh = og if z < 0.6 else rng.choice([0, 1, 2]) if z < 0.9 else 1.5
+            if og == 0 and oh == 0:
+                continue
+            its["edges"].append([ids[x], ids[y], {"order": [og, oh], "standard_order": og - oh}])
+            if og > 0:
+                gl["edges"].append([ids[x], ids[y], {"order": og}])
+            if oh > 0:
+                gr["edges"].append([ids[x], ids[y], {"order": oh}])
+    return its, gl, gr
+
+
+def _rc_side_histories(rng, n):
+    """find_rc_mapping through its ITS facade (sides r / l / op, lower or upper case, positional or keyword, with and without
+    component-wise mode) interleaved with plain calls on the same matcher; the model is given the sides the facade must select."""
+    out = []
+    for t in range(n):
+        two = rng.random() < 0.4
+        cfg = dict(node_attrs=["element", "charge"] if two else ["element"], node_defaults=["*", 0] if two else ["*"],
+                   edge_attrs=["order"], implicit=rng.random() < 0.3)
+        steps = []
+        for k in range(rng.randint(1, 3)):
+            if k and rng.random() < 0.3:
+                a, b = _small_pair(rng)
+                steps.append(dict(g1=a, g2=b, mcs=rng.random() < 0.7, call="fcs", reads=[rng.choice(_DIRS) for _ in range(2)]))
+                continue
+            its1, l1, r1 = _its_pair(rng)
+            its2, l2, r2 = _its_pair(rng)
+            if rng.random() < 0.5:
+                m = dict(zip([x for x, _ in its2["nodes"]], rng.sample(range(20, 40), len(its2["nodes"]))))
+                its2, l2, r2 = G.relabel(its2, m), G.relabel(l2, m), G.relabel(r2, m)
+                for g_ in (l2, r2):
+                    for nd_ in g_["nodes"]:
+                        nd_[1]["atom_map"] = nd_[0]
+            side = rng.choice(["r", "l", "op"])
+            g1, g2 = {"r": (r1, r2), "l": (l1, l2), "op": (r1, l2)}[side]
+            steps.append(dict(g1=g1, g2=g2, its1=its1, its2=its2, side=side, mcs=rng.random() < 0.8, call="rc_side",
+                              component=rng.random() < 0.4, positional=rng.random() < 0.5, upper=rng.random() < 0.3,
+                              reads=[rng.choice(_DIRS) for _ in range(rng.randint(1, 3))]))
+        out.append(_hist_case("history/rc-sides", "matcher", [cfg], steps))
+    return out
+
+
 def _component_cases(rng, n):
     """Component-wise mode (find_rc_mapping(side='its', component=True)): disconnected graphs with several equally large
     components (ties are broken by node order), different numbers of components, wildcard pruning that splits components."""
@@ -1086,5 +1166,6 @@ def gen_cases(tier, rng):
     cases += _prune_flip(rng, 60 if tier == "quick" else 500)
     cases += _falsy_order(rng, 50 if tier == "quick" else 400)
     cases += _component_cases(rng, 150 if tier == "quick" else 1500)
+    cases += _rc_side_histories(rng, 80 if tier == "quick" else 600)
     cases += _sizes(rng, 24 if tier == "quick" else 150)
     return cases
